@@ -400,6 +400,17 @@ func c07oracle(w *c07world) (viol []string) {
 				add("bin-reparse-error h%d %v", hi, err)
 				return
 			}
+			// DecodeBinary takes any io.Reader: the same bytes delivered in
+			// pieces (a pipe, a network stream) must decode to the same header
+			h4 := &sam.Header{}
+			if err := h4.DecodeBinary(newDribble(b)); err != nil {
+				add("bin-reparse-short-reads h%d %v", hi, err)
+				return
+			}
+			if b4, _ := h4.MarshalBinary(); !bytes.Equal(b, b4) {
+				add("bin-reparse-short-reads h%d differs", hi)
+				return
+			}
 			t3, _ := h3.MarshalText()
 			b3, _ := h3.MarshalBinary()
 			if !bytes.Equal(b, b3) || !bytes.Equal(t, t3) {
